@@ -227,5 +227,6 @@ let print_events oc cid (e : eng) nstatic (evs : ev list) =
     | EProc (s, o) -> Printf.fprintf oc "case %s: P %s %s\n" cid (sname s) (canon o)
     | EAct ok -> Printf.fprintf oc "case %s: A %s\n" cid (if ok then "ok" else "err")
     | EPop t -> Printf.fprintf oc "case %s: X %d\n" cid (int_of_nat t)
-    | EQuiet -> Printf.fprintf oc "case %s: Q\n" cid) evs
+    | EQuiet -> Printf.fprintf oc "case %s: Q\n" cid
+    | EFire (t, on, now, start, limit) -> Printf.fprintf oc "case %s: F %d %ds %d %d %d\n" cid (int_of_nat t) (int_of_nat on) (int_of_z now) (int_of_z start) (int_of_z limit)) evs
 let rec drop n l = if n <= 0 then l else match l with [] -> [] | _ :: t -> drop (n - 1) t
